@@ -230,6 +230,8 @@ class Interp:
                     if it.pp_left > 0:
                         it.pp_left -= 1
                         it.pp_done += 1
+                        it.pre_request = (it.loop.current_world,
+                                          it.loop.current_world_handle)
                         d.switch(it.handles[(h + 1) % nh],
                                  from_world=it.loop.current_world)
             world.create_entity(Bouncer())
